@@ -32,27 +32,45 @@ fn remove_input_attr(inputs: Punctuated<FnArg, Token![,]>) -> Punctuated<FnArg, 
         .collect()
 }
 
+fn is_msg_handler(attrs: &[syn::Attribute]) -> bool {
+    attrs
+        .iter()
+        .any(|attr| SylviaAttribute::new(attr) == Some(SylviaAttribute::Msg))
+}
+
 impl Fold for StripInput {
     fn fold_trait_item_fn(&mut self, i: TraitItemFn) -> TraitItemFn {
+        let is_handler = is_msg_handler(&i.attrs);
         let attrs = i
             .attrs
             .into_iter()
             .filter(|attr| SylviaAttribute::new(attr).is_none())
             .collect();
 
-        let inputs = remove_input_attr(i.sig.inputs);
+        // Only message handlers have their parameter attributes consumed (forwarded to the
+        // generated message fields). Other methods are re-emitted exactly as written.
+        let inputs = if is_handler {
+            remove_input_attr(i.sig.inputs)
+        } else {
+            i.sig.inputs
+        };
         let sig = Signature { inputs, ..i.sig };
         fold::fold_trait_item_fn(self, TraitItemFn { attrs, sig, ..i })
     }
 
     fn fold_impl_item_fn(&mut self, i: ImplItemFn) -> ImplItemFn {
+        let is_handler = is_msg_handler(&i.attrs);
         let attrs = i
             .attrs
             .into_iter()
             .filter(|attr| SylviaAttribute::new(attr).is_none())
             .collect();
 
-        let inputs = remove_input_attr(i.sig.inputs);
+        let inputs = if is_handler {
+            remove_input_attr(i.sig.inputs)
+        } else {
+            i.sig.inputs
+        };
         let sig = Signature { inputs, ..i.sig };
         fold::fold_impl_item_fn(self, ImplItemFn { attrs, sig, ..i })
     }
